@@ -20,7 +20,7 @@ import (
 	clienttypes "github.com/teleport-network/teleport/x/xibc/core/client/types"
 )
 
-const nKeys = 12
+const nKeys = 16
 
 var keys []ed25519.PrivKey
 
